@@ -166,6 +166,10 @@ def setUuid (h : Heap) (i : Nat) (u : String) : Option Heap :=
 def setPayload (h : Heap) (i : Nat) (p : Option Bytes) : Option Heap :=
   h.objs[i]?.map fun o => { h with objs := h.objs.set i { o with payload := p } }
 
+/-- `m_i.Payload = m_i.Payload[:n]`: a shorter view of the same buffer (a nil payload stays nil) -/
+def truncPayload (h : Heap) (i n : Nat) : Option Heap :=
+  h.objs[i]?.map fun o => { h with objs := h.objs.set i { o with payload := o.payload.map (·.take n) } }
+
 /-- every reference points to an allocated store -/
 def WF (h : Heap) : Prop := ∀ o ∈ h.objs, ∀ a, o.ref = some a → a < h.stores.length
 
@@ -184,6 +188,7 @@ inductive Op
   | equals (i j : Nat)
   | setUuid (i : Nat) (u : String)
   | setPayload (i : Nat) (p : Option Bytes)
+  | truncPayload (i n : Nat)     -- m.Payload = m.Payload[:n]
   | rewrap (i : Nat)             -- through the forwarder envelope and back: a decoded message (nil metadata stays nil)
   deriving Repr
 
@@ -230,6 +235,10 @@ def step (h : Heap) : Op → Heap × Res
     | some h' => (h', .done)
   | .setPayload i p =>
     match h.setPayload i p with
+    | none => (h, .bad)
+    | some h' => (h', .done)
+  | .truncPayload i n =>
+    match h.truncPayload i n with
     | none => (h, .bad)
     | some h' => (h', .done)
   | .rewrap i =>
